@@ -27,6 +27,7 @@ PROPS = {
         "technique": "runtime monitoring: reference-model (independent matcher) comparison of real lookup_route / live dispatch over generated route tables and requests, registration-order permutation",
         "engines": [
             {"name": "c01-router"},
+            {"name": "c01-live"},
         ],
         "assumptions": ASSUME_COMMON,
     },
@@ -51,6 +52,7 @@ PROPS = {
             {"name": "c03-dots"},
             {"name": "c03-spellings"},
             {"name": "c03-router"},
+            {"name": "c03-live"},
         ],
         "assumptions": ASSUME_COMMON,
     },
@@ -63,6 +65,7 @@ PROPS = {
         "engines": [
             {"name": "c05-exhaustive"},
             {"name": "c05-random"},
+            {"name": "c05-live"},
         ],
         "assumptions": ASSUME_COMMON,
     },
@@ -85,6 +88,7 @@ PROPS = {
         "technique": "runtime monitoring: 404/405/Allow reference model compared with real lookup_route errors over method-sparse, version-sliced tables",
         "engines": [
             {"name": "c04-router"},
+            {"name": "c04-live"},
         ],
         "assumptions": ASSUME_COMMON,
     },
